@@ -7,20 +7,20 @@
                      component is called once, each parameter bound to the LAST value given for it (converted
                      to the declared type) or else to its default; no namespace, no key popping.
    conv / as_pos   : every theorem holds for EVERY conversion function and both values of as_positional.
-   auto_cli false  : the code as it is now (after the round-2 repairs 5bbebb1 and 2f69862 in /repo);
+   auto_cli false  : the code as it is now (after the repairs 5bbebb1, 2f69862 and 4bb4764 in /repo);
    auto_cli true   : the code before them — only in the regression witnesses at the end.
-   The two guards are exactly the finding classes of the correspondence judge (Corr/C12Judge.v); the two guards
-   of round 1 (no_reserved_param_names, no_private_optional_without_default) are gone with the repairs. *)
+   The one remaining guard is exactly the finding class of the correspondence judge (Corr/C12Judge.v); the guards
+   no_reserved_param_names, no_private_optional_without_default, no_class_subcommand_param are gone with the repairs. *)
 From JV Require Import Lib.Base Lib.C12Syntax Model.C12Cli Spec.C12CliSpec Proofs.C12CliProofs.
 
 (* The core: for all component trees (function, class with methods, list, nested dict), all tokenised
-   command lines and all conversions, inside the two guards the code-shaped model and the reference
+   command lines and all conversions, if no Optional parameter has a str default that YAML reads as null, the code-shaped model and the reference
    semantics agree on EVERY outcome: the same call log and returned value when the component is run,
    rejection of the command line exactly when the spec rejects it, refusal to build exactly when the
    spec refuses, and never an exception escaping from the call (no missing / unexpected keyword). *)
 Theorem C12_binds_exactly :
   forall (conv : ty -> raw -> option value) (as_pos : bool) (cs : components) (toks : list tok),
-    no_class_subcommand_param cs = true -> no_nullish_str_default cs = true ->
+    no_nullish_str_default cs = true ->
     match auto_cli false conv as_pos cs toks with
     | Ok (log, ret) => spec conv as_pos cs toks = Done log ret
     | Err EParse => spec conv as_pos cs toks = Rejected
@@ -78,7 +78,6 @@ Print Assumptions C12_function_called_once.
 Theorem C12_class_split :
   forall (conv : ty -> raw -> option value) (as_pos : bool) (n : str) (i : sig) (ms : list (str * sig))
          (toks : list tok) (log : list call) (ret : retv),
-    no_class_subcommand_param (One (CCls n i ms)) = true ->
     no_nullish_str_default (One (CCls n i ms)) = true ->
     auto_cli false conv as_pos (One (CCls n i ms)) toks = Ok (log, ret) ->
     exists b1, map fst b1 = names i /\
@@ -106,27 +105,17 @@ Theorem C12_optional_defaults_none :
 Proof. exact optional_defaults_none. Qed.
 Print Assumptions C12_optional_defaults_none.
 
-(* ---- the two guards are needed: the present code violates the property there (open findings) ------- *)
-(* class Tool: def __init__(self, subcommand: int = 1) (no public methods), `--subcommand=5`: _run_component pops
-   "subcommand" for every class and takes the value for a method name: TypeError escapes; the property demands 5 *)
-Theorem C12_class_subcommand_refuted :
-  exists cs toks,
-    no_class_subcommand_param cs = false /\ no_nullish_str_default cs = true /\
-    auto_cli false conv_simple true cs toks = Err ECrash /\
-    spec conv_simple true cs toks = Done [([w_tool; s__init__], [(s_subcommand, VInt 5)])] RetInstance.
-Proof. exact class_subcommand_refuted. Qed.
-Print Assumptions C12_class_subcommand_refuted.
-
+(* ---- the guard is needed: the present code violates the property there (open finding) ------- *)
 (* def run(alpha: Optional[str] = "null"), no arguments: the callee receives None instead of its default "null" *)
 Theorem C12_nullish_default_refuted :
   exists cs toks,
-    no_class_subcommand_param cs = true /\ no_nullish_str_default cs = false /\
+    no_nullish_str_default cs = false /\
     auto_cli false conv_simple true cs toks = Ok ([([w_run], [(w_alpha, VNone)])], RetCall 0) /\
     spec conv_simple true cs toks = Done [([w_run], [(w_alpha, VStr w_null)])] (RetCall 0).
 Proof. exact nullish_default_refuted. Qed.
 Print Assumptions C12_nullish_default_refuted.
 
-(* ---- regression witnesses about the code BEFORE the round-2 repairs (auto_cli true): the three inputs on which it
+(* ---- regression witnesses about the code BEFORE the repairs (auto_cli true): the four inputs on which it
         violated the property, and the same inputs on the present model ------------------------------------------ *)
 (* def run(subcommand: int = 1), `--subcommand=5`: the callee receives 1, the property demands 5 *)
 Theorem C12_reserved_names_refuted :
@@ -157,6 +146,16 @@ Theorem C12_private_optional_refuted :
 Proof. exact private_optional_refuted. Qed.
 Print Assumptions C12_private_optional_refuted.
 
+(* class Tool: def __init__(self, subcommand: int = 1) (no public methods), `--subcommand=5`: before 4bb4764 _run_component
+   popped "subcommand" for every class and took the value for a method name: TypeError escaped *)
+Theorem C12_class_subcommand_refuted :
+  exists cs toks,
+    no_class_subcommand_param cs = false /\
+    auto_cli true conv_simple true cs toks = Err ECrash /\
+    spec conv_simple true cs toks = Done [([w_tool; s__init__], [(s_subcommand, VInt 5)])] RetInstance.
+Proof. exact class_subcommand_refuted. Qed.
+Print Assumptions C12_class_subcommand_refuted.
+
 Theorem C12_round1_inputs_repaired :
   auto_cli false conv_simple true (One (CFn w_run [w_p s_subcommand TInt (Some (VInt 1))])) [KOpt s_subcommand (RInt 5)]
     = Ok ([([w_run], [(s_subcommand, VInt 5)])], RetCall 0) /\
@@ -165,14 +164,16 @@ Theorem C12_round1_inputs_repaired :
     [KPos (RStr w_train); KOpt s_config (RInt 7)]
     = Ok ([([w_tool; s__init__], [(w_alpha, VInt 1)]); ([w_tool; w_train], [(s_config, VInt 7)])], RetCall 1) /\
   auto_cli false conv_simple true (One (CFn w_run [w_p w_hid (TOpt TInt) None; w_p w_sigma TBool None])) [KPos (RBool true)]
-    = Ok ([([w_run], [(w_hid, VNone); (w_sigma, VBool true)])], RetCall 0).
+    = Ok ([([w_run], [(w_hid, VNone); (w_sigma, VBool true)])], RetCall 0) /\
+  auto_cli false conv_simple true (One (CCls w_tool [w_p s_subcommand TInt (Some (VInt 1))] [])) [KOpt s_subcommand (RInt 5)]
+    = Ok ([([w_tool; s__init__], [(s_subcommand, VInt 5)])], RetInstance).
 Proof. exact round1_inputs_repaired. Qed.
 Print Assumptions C12_round1_inputs_repaired.
 
 (* ---- the hypotheses are satisfiable by a non-trivial input: a dict holding a class with a method;
         values from a --config section, positionally, by option (twice, last wins) and by default ---- *)
 Example C12_guards_satisfiable :
-  no_class_subcommand_param w_ex_comps = true /\ no_nullish_str_default w_ex_comps = true /\
+  no_nullish_str_default w_ex_comps = true /\
   auto_cli false conv_simple true w_ex_comps w_ex_toks =
     Ok ([([w_tool; s__init__], [(w_alpha, VInt 9); (w_beta, VStr w_sigma)]);
          ([w_tool; w_train], [(w_alpha, VInt 5); (w_sigma, VBool true)])], RetCall 1).
